@@ -19,6 +19,13 @@ var c10Progs = []string{
 	"{ o = {b: 1, a: 2}; print o; for (k in o) print k }",
 	"{ print $.pluck('c', 'a') }",
 	"{ print num('12') + 1, json([1, {k: 2}]), $.length(); printf('%s|%v\n', 'p', 3) }",
+	// constructs with several sub-expressions whose evaluation order shows (side effects, exit, errors)
+	"{ n = 0; o = {first: n++, second: n++, third: n++}; print o.first, o.second, o.third, n }",
+	"{ q = [1, 2, 3]; o = {head: q.popfirst(), then: q.popfirst()}; print o, q }",
+	"function f(a, b, c) { return [a, b, c] }\n{ n = 0; print f(n++, n++, n++), [n++, n++], n }",
+	"{ x = match ({a: 1, b: 2, c: 3}) { {a: p, b: q, c: r} => [p, q, r] }\nprint x }",
+	"function stop() { exit }\n{ print 'before'; o = {a: stop(), b: 1 / 0, c: nosuch()}; print 'after' }",
+	"{ n = 0; print {z: n++, a: n++}, n; printf('%v %v %v\\n', n++, n++, n) }",
 	"{ a = [3, 1, 2]; a.push(0); print a.sort(), a.contains(3), a.pop(), a.popfirst(), a.length(), 'Ab'.upper(), 'Ab'.lower(), 'a,b'.split(','), 2.5.floor(), 2.5.ceil(), 2.5.round() }",
 }
 
